@@ -9,7 +9,10 @@ from contracts import libdist as CL
 def run(tier, seed, update_lock=False):
     R = Run('C19', 'proof', tier, seed)
     # (a)+(b): ghost-initialisation and frame obligations of functions under contract
-    units = [K.util_unit()]
+    from contracts import trim as CTR, tpt as CTP, builders as CBU
+    units = [K.util_unit(), Unit('trim[renumber]', CTR.registry(True)), Unit('trim[in-place]', CTR.registry(False)),
+             Unit('tpt-flux[dense]', CTP.registry(), keys=[CTP.F + '_get_data_from_tprob', CTP.F + 'reactive_fluxes', CTP.F + 'net_fluxes']),
+             Unit('builders-dense', CBU.registry('scalar', True), keys=[CBU.F + 'transpose', CBU.F + '_row_normalize', CBU.F + '_apply_prior_counts', CBU.F + 'normalize'])]
     for kind in ('euclidean', 'manhattan', 'hamming'):
         units.append(Unit('%s[out=none]' % kind, CL.registry(kind, 'none'), keys=[CL.F + kind, CL.F + '_' + kind]))
     for u in units:
